@@ -289,7 +289,7 @@ class C10(TrainCase):
 
 class C13(TrainCase):
     pid = 'C13'
-    gen_kw = dict(restarts=0.25, extras=0.4, scheduler=0.1, max_ops=8,
+    gen_kw = dict(restarts=0.25, extras=0.55, scheduler=0.35, max_ops=8,
                   min_world=1)
     force_monitors = {'memory': True}
     expected_probes = ['memory_monitor', 'traffic_checks',
